@@ -8,6 +8,7 @@ cd /verif || exit 2
 for d in seeded/*/; do
   m=$(basename "$d"); prop=${m%%-*}
   f=$d/patch.diff; [ -f "$d/patch.adapted.diff" ] && f=$d/patch.adapted.diff
+  if grep -q '"obsolete"' "$d/meta.json"; then echo "$m: OBSOLETE (see meta.json)"; continue; fi
   if [ -n "$(git -C /repo status --porcelain --untracked-files=no)" ]; then echo "repo dirty"; exit 2; fi
   if ! git -C /repo apply "/verif/$f" 2>/dev/null; then echo "$m: DOES NOT APPLY"; continue; fi
   if ! (cd /repo && go build ./... >/dev/null 2>&1); then echo "$m: DOES NOT BUILD"; git -C /repo checkout -- .; continue; fi
